@@ -326,6 +326,7 @@ func TestC09Wire(t *testing.T) {
 		}
 		note()
 		emitted := 0
+		ticksSinceStart := 0
 		nontrivial := false
 		knownHit := false
 		nextSlot := uint32(5)
@@ -412,6 +413,10 @@ func TestC09Wire(t *testing.T) {
 				rows = append(rows[:i], rows[i+1:]...)
 			},
 			"tick": func(t *rapid.T) {
+				if ticksSinceStart >= 26 {
+					t.Skip("tick budget used (after 30 ticks the client starts a sync round of its own)")
+				}
+				ticksSinceStart++
 				world.WriteEnergy(dir, render())
 				note()
 				hist = append(hist, "tick")
@@ -438,6 +443,7 @@ func TestC09Wire(t *testing.T) {
 				if err != nil {
 					t.Fatalf("C09: restart failed: %v; history %v", err, hist)
 				}
+				ticksSinceStart = 0
 				// a restart re-reads the file, stores, and sends nothing; what was
 				// sent before is forgotten (latest is recomputed from the file)
 				refm.latest = 0
